@@ -8,16 +8,16 @@ prop(
     design_ref="DESIGN.md 2/C14",
     stages=[
         dict(run="^TestPropMachine$",
-             quick=dict(checks=400, shards=8, timeout=900, steps=30, shrinktime='8s'),
+             quick=dict(checks=320, shards=8, timeout=900, steps=30, shrinktime='8s'),
              thorough=dict(checks=12000, shards=16, timeout=7200, steps=40)),
         dict(run="^TestPropOverlapWindows$",
              quick=dict(checks=64, shards=8, timeout=900, shrinktime='8s'),
              thorough=dict(checks=3200, shards=16, timeout=7200)),
         dict(run="^TestPropStress$",
-             quick=dict(checks=1600, shards=8, timeout=900, shrinktime='8s'),
+             quick=dict(checks=1200, shards=8, timeout=900, shrinktime='8s'),
              thorough=dict(checks=120000, shards=16, timeout=7200)),
         dict(run="^TestStressRace$", race=True,
-             quick=dict(checks=200, shards=4, timeout=900, shrinktime='8s'),
+             quick=dict(checks=160, shards=4, timeout=900, shrinktime='8s'),
              thorough=dict(checks=32000, shards=16, timeout=7200)),
     ],
     rule="machine: FailoverGroup with one upstream (shared cache on), concurrency in {1,2,3,8}, rateLimit 1e6/s, 3-4 distinct questions "
